@@ -435,6 +435,34 @@ func c15Termination(c *Ctx) {
 		if !w.requires(f, rm, term, true) {
 			return false, "the NOTIFY removal is not guarded by Subscription-State == \"terminated\""
 		}
+		// and it always happens: for a NOTIFY whose dialog identifier is available and whose Subscription-State is
+		// "terminated" the removal executes on every path, whether or not the pin was found (no early return - a cache hit,
+		// say - passes it by)
+		var gm, gd ssa.CallInstruction
+		for _, cs := range w.callsIn(f, "(*Message).GetMethod") {
+			gm = cs.In
+		}
+		for _, cs := range w.callsIn(f, "(*Message).GetDialog") {
+			gd = cs.In
+		}
+		if gm == nil || gd == nil {
+			return false, "method or dialog identifier is not consulted"
+		}
+		as := []assumption{assumeAtom(errNil(gm), true), assumeAtom(errNil(gd), true), assumeAtom(errNil(hv), true), assumeAtom(term, true),
+			assumeAtom(func(a Atom) bool { return a.Kind == "eqstr" && a.Str == "NOTIFY" && isResultOf(a.X, gm, 0) }, true),
+			assumeAtom(func(a Atom) bool { return a.Kind == "eqstr" && a.Str != "NOTIFY" && isResultOf(a.X, gm, 0) }, false),
+			assumeAtom(func(a Atom) bool {
+				e, isE := a.X.(*ssa.Extract)
+				if a.Kind != "bool" || !isE || e.Index != 1 {
+					return false
+				}
+				_, isTA := e.Tuple.(*ssa.TypeAssert)
+				return isTA
+			}, true)}
+		mn, mx, _ := countSites(entryPt(f), w.under(as...), isInstr(rm))
+		if mn != 1 || mx != 1 {
+			return false, fmt.Sprintf("for a NOTIFY with Subscription-State terminated and a dialog identifier the removal executes min=%d max=%d times: a path (an early return on a cache hit, an extra condition) leaves the pin of a terminated subscription alive", mn, mx)
+		}
 		return true, ""
 	})
 	// the BYE removal concerns responses coming from a backend: handleDialog returns early for non-responses
